@@ -95,8 +95,9 @@ def suite_passes(ov, pkgs):
     return r.returncode == 0, (r.stdout + r.stderr)[-1500:]
 
 
-def run_check(prop, tier, ov):
+def run_check(prop, tier, ov, extra=None):
     env = dict(ENV, VERIF_OVERLAY=ov, VERIF_OUT=os.path.join(WORK, 'out'))
+    env.update(extra or {})
     t0 = time.time()
     r = subprocess.run([os.path.join(ROOT, 'check.sh'), prop, tier], env=env, capture_output=True, text=True)
     out = r.stdout + r.stderr
@@ -120,7 +121,7 @@ def main():
     todo = []
     if a.patch:
         ov, pkgs = overlay_from_patch('patch', a.patch)
-        todo.append(('patch:' + a.patch, a.props.split(','), ov, pkgs, 'caught', a.patch))
+        todo.append(('patch:' + a.patch, a.props.split(','), ov, pkgs, 'caught', a.patch, None))
     else:
         for m in MUTANTS:
             if a.k and a.k not in m['name']:
@@ -128,8 +129,8 @@ def main():
             if a.p and a.p not in m['props']:
                 continue
             ov, pkgs = make_overlay(m['name'], m['edits'])
-            todo.append((m['name'], m['props'], ov, pkgs, m.get('expect', 'caught'), m.get('desc', '')))
-    for (name, props, ov, pkgs, expect, desc) in todo:
+            todo.append((m['name'], m['props'], ov, pkgs, m.get('expect', 'caught'), m.get('desc', ''), m.get('env')))
+    for (name, props, ov, pkgs, expect, desc, extra) in todo:
         suite = 'skipped'
         if not a.no_suite:
             ok, tail = suite_passes(ov, pkgs)
@@ -140,7 +141,7 @@ def main():
                 bad += 1
                 continue
         for prop in props:
-            rc, viol, out, dt = run_check(prop, a.tier, ov)
+            rc, viol, out, dt = run_check(prop, a.tier, ov, extra)
             if expect == 'caught':
                 good = rc == 1 and len(viol) > 0
             else:
